@@ -26,7 +26,7 @@ import traceback
 from .paths import VERIF, REPO
 
 PY = sys.executable
-RUN_TIMEOUT_S = 300
+RUN_TIMEOUT_S = 900 if os.environ.get('VERIF_TIER') == 'thorough' else 300      # bounds hangs; the thorough tiers run much larger modules, often on a loaded machine
 
 
 def H(*parts):
@@ -199,6 +199,8 @@ class Ctx:
 
     def ask(self, hashseed, job):
         p = self.proc(hashseed)
+        if 'timeout' not in job:
+            job = dict(job, timeout=RUN_TIMEOUT_S - 60)
         p.stdin.write(json.dumps(job) + '\n')
         p.stdin.flush()
         line = p.stdout.readline()
